@@ -1,5 +1,186 @@
-From Coq Require Import List NArith.
-From SK Require Import model.C12_Model proof.C12_Proof.
+(** C12 -- maximum common subgraph results are valid and of maximum size.
+    Statements only; every proof is [exact <lemma of proof/C12_*.v>].
+
+    The functions are those of model/C12_Model.v which the correspondence evaluates on every run
+    ([run_matcher] -> [find_common_subgraph] -> [prune_graph], [prepare_orientation], [search_subgraphs],
+     [get_mappings] in all three directions; [run_mtg] -> [find_common_subgraph_mtg] -> [search_subgraphs]).
+    The induced sub-graph isomorphisms of one k-subset are enumerated in the model by the verified enumerator
+    [Mono.monos] (lib/Mono.v, induced := true); that networkx VF2 returns the same SET is the monitored premise
+    (TRUSTED_BASE; compared on every case through the ordered result lists).
+    Graphs: node ids pairwise distinct ([NoDup (node_ids g)], guaranteed by networkx); adjacency is symmetric by
+    construction ([LGraph.adj]). *)
+From Coq Require Import List NArith ZArith Bool Arith Permutation.
+From SK Require Import lib.LGraph model.C12_Model proof.C12_Search proof.C12_Proof.
+Import ListNotations.
+
+(** ** 0. the specification: a common induced sub-graph mapping, written out.
+    [m] lists (node of the first graph, node of the second graph) pairs; it is a function, injective, maps nodes to
+    nodes with matching selected labels, and between any two mapped atoms a bond is present on both sides with
+    matching order, or absent on both sides. *)
+Theorem C12_common_induced_meaning :
+  forall (nm : option nattr -> option nattr -> bool) (em : eattr -> eattr -> bool) (ga gb : graph) (m : mapping),
+  common_induced nm em ga gb m <->
+  NoDup (map fst m) /\ NoDup (map snd m) /\
+  (forall p h, In (p, h) m ->
+     In p (node_ids ga) /\ In h (node_ids gb) /\ nm (label gb h) (label ga p) = true) /\
+  (forall p h p' h', In (p, h) m -> In (p', h') m -> p <> p' ->
+     match LGraph.adj ga p p', LGraph.adj gb h h' with
+     | Some b, Some b' => em b' b = true
+     | None, None => True
+     | _, _ => False
+     end).
+Proof. exact (fun nm em ga gb m => iff_refl _). Qed.
+Print Assumptions C12_common_induced_meaning.
+
+(** ** 1. every returned mapping is valid -- both modes, all three directions, after the orientation swap and
+    wildcard pruning: a G1->G2 mapping is a common induced mapping of (G1, G2), a G2->G1 mapping one of (G2, G1),
+    a pattern->host mapping one of the oriented pair; no returned mapping is empty. *)
+Theorem C12_valid :
+  forall (defs : list N) (prune : bool) (wc : N) (g1 g2 : graph),
+  NoDup (node_ids g1) -> NoDup (node_ids g2) ->
+  forall (mcs : bool) (m : mapping),
+  (In m (get_mappings G1toG2 (find_common_subgraph defs prune wc g1 g2 mcs)) ->
+     common_induced (node_match defs) edge_match (prune_graph prune wc g1) (prune_graph prune wc g2) m /\ 1 <= length m) /\
+  (In m (get_mappings G2toG1 (find_common_subgraph defs prune wc g1 g2 mcs)) ->
+     common_induced (node_match defs) edge_match (prune_graph prune wc g2) (prune_graph prune wc g1) m /\ 1 <= length m) /\
+  (In m (get_mappings PatternToHost (find_common_subgraph defs prune wc g1 g2 mcs)) ->
+     if r_pattern_is_g1 (find_common_subgraph defs prune wc g1 g2 mcs)
+     then common_induced (node_match defs) edge_match (prune_graph prune wc g1) (prune_graph prune wc g2) m
+     else common_induced (node_match defs) edge_match (prune_graph prune wc g2) (prune_graph prune wc g1) m).
+Proof. exact fcs_valid. Qed.
+Print Assumptions C12_valid.
+
+(** ** 2. maximum mode: all returned mappings have the size [last_size]; NO common induced mapping of the two graphs
+    is larger (soundness + maximality, whichever graph is larger); every common induced mapping of that size is
+    returned (up to the order in which its pairs are listed); the result is empty iff last_size = 0.
+    Stated for the G1->G2 answer against (G1, G2) and for the G2->G1 answer against (G2, G1). *)
+Theorem C12_maximum :
+  forall (defs : list N) (prune : bool) (wc : N) (g1 g2 : graph),
+  NoDup (node_ids g1) -> NoDup (node_ids g2) ->
+  let g1u := prune_graph prune wc g1 in
+  let g2u := prune_graph prune wc g2 in
+  let r := find_common_subgraph defs prune wc g1 g2 true in
+  ((forall m, In m (get_mappings G1toG2 r) ->
+      common_induced (node_match defs) edge_match g1u g2u m /\ length m = r_last r) /\
+   (forall m, common_induced (node_match defs) edge_match g1u g2u m -> length m <= r_last r) /\
+   (forall m, common_induced (node_match defs) edge_match g1u g2u m -> length m = r_last r -> 1 <= r_last r ->
+      exists m', In m' (get_mappings G1toG2 r) /\ Permutation m m') /\
+   (get_mappings G1toG2 r = [] <-> r_last r = 0)) /\
+  ((forall m, In m (get_mappings G2toG1 r) ->
+      common_induced (node_match defs) edge_match g2u g1u m /\ length m = r_last r) /\
+   (forall m, common_induced (node_match defs) edge_match g2u g1u m -> length m <= r_last r) /\
+   (forall m, common_induced (node_match defs) edge_match g2u g1u m -> length m = r_last r -> 1 <= r_last r ->
+      exists m', In m' (get_mappings G2toG1 r) /\ Permutation m m') /\
+   (get_mappings G2toG1 r = [] <-> r_last r = 0)).
+Proof. exact fcs_maximum. Qed.
+Print Assumptions C12_maximum.
+
+(** all-sizes mode: the result is exactly (up to the order of the pairs) the set of non-empty common induced mappings *)
+Theorem C12_all_sizes :
+  forall (defs : list N) (prune : bool) (wc : N) (g1 g2 : graph),
+  NoDup (node_ids g1) -> NoDup (node_ids g2) ->
+  let g1u := prune_graph prune wc g1 in
+  let g2u := prune_graph prune wc g2 in
+  let r := find_common_subgraph defs prune wc g1 g2 false in
+  ((forall m, In m (get_mappings G1toG2 r) -> common_induced (node_match defs) edge_match g1u g2u m /\ 1 <= length m) /\
+   (forall m, common_induced (node_match defs) edge_match g1u g2u m -> 1 <= length m ->
+      exists m', In m' (get_mappings G1toG2 r) /\ Permutation m m')) /\
+  ((forall m, In m (get_mappings G2toG1 r) -> common_induced (node_match defs) edge_match g2u g1u m /\ 1 <= length m) /\
+   (forall m, common_induced (node_match defs) edge_match g2u g1u m -> 1 <= length m ->
+      exists m', In m' (get_mappings G2toG1 r) /\ Permutation m m')).
+Proof. exact fcs_all. Qed.
+Print Assumptions C12_all_sizes.
+
+(** a result exists iff some atom of G1 matches some atom of G2 on the selected labels *)
+Theorem C12_nonempty_iff :
+  forall (defs : list N) (prune : bool) (wc : N) (g1 g2 : graph),
+  NoDup (node_ids g1) -> NoDup (node_ids g2) ->
+  forall mcs : bool,
+  get_mappings G1toG2 (find_common_subgraph defs prune wc g1 g2 mcs) <> [] <->
+  exists p h, In p (node_ids (prune_graph prune wc g1)) /\ In h (node_ids (prune_graph prune wc g2)) /\
+              node_match defs (label (prune_graph prune wc g2) h) (label (prune_graph prune wc g1) p) = true.
+Proof. exact fcs_nonempty_iff. Qed.
+Print Assumptions C12_nonempty_iff.
+
+(** ** 3. asking for the mapping in either direction gives mutually inverse maps: the two answers are position-wise
+    inverse lists of pairs, inversion swaps the components of every pair and is an involution -- for every result
+    record, whichever graph was the pattern. *)
+Theorem C12_directions_inverse :
+  forall r : result,
+  get_mappings G2toG1 r = map invert_mapping (get_mappings G1toG2 r) /\
+  get_mappings G1toG2 r = map invert_mapping (get_mappings G2toG1 r).
+Proof. exact directions_inverse. Qed.
+Print Assumptions C12_directions_inverse.
+
+Theorem C12_invert_swaps : forall (a b : N) (m : mapping), In (a, b) (invert_mapping m) <-> In (b, a) m.
+Proof. exact in_invert. Qed.
+Print Assumptions C12_invert_swaps.
+
 Theorem C12_invert_involutive : forall m : mapping, invert_mapping (invert_mapping m) = m.
 Proof. exact invert_involutive. Qed.
 Print Assumptions C12_invert_involutive.
+
+(** orientation (first graph larger): with graphs of different size, exchanging the arguments runs the same search
+    and exchanges the answers of the two direction requests *)
+Theorem C12_orientation_swap :
+  forall (defs : list N) (prune : bool) (wc : N) (g1 g2 : graph) (mcs : bool),
+  n_nodes (prune_graph prune wc g1) <> n_nodes (prune_graph prune wc g2) ->
+  get_mappings G1toG2 (find_common_subgraph defs prune wc g1 g2 mcs) =
+  get_mappings G2toG1 (find_common_subgraph defs prune wc g2 g1 mcs) /\
+  r_last (find_common_subgraph defs prune wc g1 g2 mcs) = r_last (find_common_subgraph defs prune wc g2 g1 mcs) /\
+  r_pattern_is_g1 (find_common_subgraph defs prune wc g1 g2 mcs) =
+  negb (r_pattern_is_g1 (find_common_subgraph defs prune wc g2 g1 mcs)).
+Proof. exact orientation_swap. Qed.
+Print Assumptions C12_orientation_swap.
+
+(** ** 4. the search itself, for arbitrary node / edge matchers (this is what both copies of the matcher share):
+    the level-by-level loop with early exit against the verified enumerator.  One level = Mono.monos over the
+    k-subsets of the pattern: sound and complete for the common induced mappings of size k. *)
+Theorem C12_level_exact :
+  forall (nm : option nattr -> option nattr -> bool) (em : eattr -> eattr -> bool) (pattern host : graph),
+  NoDup (node_ids pattern) ->
+  (forall k m, In m (level nm em pattern host k) -> common_induced nm em pattern host m /\ length m = k) /\
+  (forall m, common_induced nm em pattern host m ->
+     exists m', In m' (level nm em pattern host (length m)) /\ Permutation m m').
+Proof. exact (fun nm em pattern host H => conj (level_sound nm em pattern host H) (level_complete nm em pattern host H)). Qed.
+Print Assumptions C12_level_exact.
+
+Theorem C12_search_maximum :
+  forall (nm : option nattr -> option nattr -> bool) (em : eattr -> eattr -> bool) (pattern host : graph),
+  NoDup (node_ids pattern) ->
+  forall (maps : list mapping) (last tried : nat),
+  search_subgraphs nm em pattern host true = (maps, last, tried) ->
+  (forall m, In m maps -> common_induced nm em pattern host m /\ length m = last) /\
+  (forall m, common_induced nm em pattern host m -> length m <= last) /\
+  (forall m, common_induced nm em pattern host m -> length m = last -> 1 <= last ->
+     exists m', In m' maps /\ Permutation m m') /\
+  (maps = [] <-> last = 0).
+Proof. exact search_mcs_spec. Qed.
+Print Assumptions C12_search_maximum.
+
+Theorem C12_search_all_sizes :
+  forall (nm : option nattr -> option nattr -> bool) (em : eattr -> eattr -> bool) (pattern host : graph),
+  NoDup (node_ids pattern) ->
+  forall (maps : list mapping) (last tried : nat),
+  search_subgraphs nm em pattern host false = (maps, last, tried) ->
+  (forall m, In m maps -> common_induced nm em pattern host m /\ 1 <= length m) /\
+  (forall m, common_induced nm em pattern host m -> 1 <= length m -> exists m', In m' maps /\ Permutation m m').
+Proof. exact search_all_spec. Qed.
+Print Assumptions C12_search_all_sizes.
+
+(** ** 5. the MTG copy (G1 is always the pattern; its edge matcher rejects a missing order) *)
+Theorem C12_mtg :
+  forall (defs : list N) (g1 g2 : graph), NoDup (node_ids g1) -> NoDup (node_ids g2) ->
+  let maps := fst (fst (find_common_subgraph_mtg defs g1 g2 true)) in
+  let last := snd (fst (find_common_subgraph_mtg defs g1 g2 true)) in
+  let maps_all := fst (fst (find_common_subgraph_mtg defs g1 g2 false)) in
+  ((forall m, In m maps -> common_induced (node_match defs) edge_match_mtg g1 g2 m /\ length m = last) /\
+   (forall m, common_induced (node_match defs) edge_match_mtg g1 g2 m -> length m <= last) /\
+   (forall m, common_induced (node_match defs) edge_match_mtg g1 g2 m -> length m = last -> 1 <= last ->
+      exists m', In m' maps /\ Permutation m m') /\
+   (maps = [] <-> last = 0)) /\
+  ((forall m, In m maps_all -> common_induced (node_match defs) edge_match_mtg g1 g2 m /\ 1 <= length m) /\
+   (forall m, common_induced (node_match defs) edge_match_mtg g1 g2 m -> 1 <= length m ->
+      exists m', In m' maps_all /\ Permutation m m')).
+Proof. exact mtg_spec. Qed.
+Print Assumptions C12_mtg.
